@@ -183,7 +183,7 @@ func Main(t *testing.T, d Driver) {
 	start, _ := strconv.Atoi(os.Getenv("VERIF_START"))
 	timeout := d.CaseTimeout
 	if timeout == 0 {
-		timeout = 5 * time.Minute
+		timeout = 15 * time.Minute
 	}
 	for idx := range cases {
 		if idx%shardN != shardI || idx < start {
